@@ -279,7 +279,11 @@ func c08Run(c *core.Ctx) {
 	run := func(src string, size int, shrinkIdx []int, sep string) {
 		c.Cur(src)
 		c.Inc("inputs")
-		for _, ci := range cfgIdx {
+		use := cfgIdx
+		if len(shrinkIdx) == 5 {
+			use = c08Quick // length 5 (thorough): the representative option sets; lengths <= 4 get all 21
+		}
+		for _, ci := range use {
 			k, d, n, acc := c08Check(src, c08Cfgs[ci])
 			if !acc {
 				return
